@@ -181,6 +181,13 @@ func genMulti(t *rapid.T) MCase {
 				c.Ops = append(c.Ops, op)
 			}
 		}
+		// a group of the wrap class is not split by a collection
+		for i, g := range ctxs {
+			for len(g.pending) > 0 {
+				c.Ops = append(c.Ops, MOp{Inst: i, I: g.int(t, counter[i])})
+				counter[i]++
+			}
+		}
 		collects(cy == cycles-1)
 	}
 	return c
@@ -220,6 +227,8 @@ func runMulti(c MCase) ([]vk.Violation, vk.Info) {
 	}
 	info.ClassIf(c.Int, "int64")
 	info.ClassIf(!c.Int, "float64")
+	info.ClassIf(r.intPrefixOut, "int64_prefix_sum_outside_int64_total_inside(sum_checked)")
+	info.ClassIf(r.intTotalOut, "int64_total_outside_int64(sum_not_checked)")
 	info.ClassIf(r.underflow, "underflow_drop")
 	info.ClassIf(r.knownOffByOne, "off_by_one_near_irrational_boundary")
 	info.ClassIf(r.onBound, "value_on_or_1ulp_from_bound")
